@@ -229,6 +229,148 @@ Section RR.
     split; [apply whole_set_pos; exact Hw|]. split; [reflexivity|]. split; [exact Hi'|reflexivity].
   Qed.
 
+  (* ---------------------------------------------------------------- seek by skipping *)
+  (* seek to a section whose offset is NOT known, on a reader standing right behind the header:
+     the reader skips the questions and the lower sections item by item *)
+  Lemma skip_question_is_question_at c it : whole msg c -> question_at msg (pos c) = Some it ->
+    m_skip_question msg c = (c_set_pos c (a_end it), Ok tt).
+  Proof.
+    intros Hw. unfold question_at. pose proof (skip_is_name_at msg c Hw) as Hs.
+    destruct (name_at msg (pos c)) as [[r fits]|]; [|discriminate].
+    unfold be. destruct (r + 2 <=? lenN msg) eqn:E1; [|discriminate]. destruct (r + 2 + 2 <=? lenN msg) eqn:E2; [|discriminate].
+    intro H; inversion H; subst. cbn [a_end].
+    unfold m_skip_question, mbind, lift_c, lift. rewrite Hs. cbn [bind].
+    destruct Hw as [Hl Ho]. rewrite c_skip_fwd by (cbn [pos lim c_set_pos]; lia). reflexivity.
+  Qed.
+
+  Lemma P_0 : P 0 = 12.
+  Proof.
+    unfold P, items.
+    destruct (chain_get _ _ Hfq _ _ _ Hq) as (_ & _ & Q3 & _). destruct (chain_get _ _ Hfr _ _ _ Hr) as (_ & _ & R3 & _).
+    destruct qs as [|q0 qs'].
+    - cbn [app]. inversion Hq; subst. destruct (getN rs 0) as [r0|]; congruence.
+    - cbn [app]. rewrite getN_cons_0 in *. exact Q3.
+  Qed.
+
+  Lemma skip_questions_loop_ok : forall n fuel r idx hw, RState r idx hw -> idx + N.of_nat n = nq -> lenN qs = nq ->
+    (n < fuel)%nat -> exists r', skip_questions_loop msg fuel r = (r', Ok tt) /\ RState r' nq (N.max hw nq).
+  Proof.
+    induction n as [|n IH]; intros fuel r idx hw Hs Hn Hfull Hf; (destruct fuel as [|f]; [lia|]); cbn [skip_questions_loop];
+      pose proof Hs as (Hw & Hp & Hi & Hd);
+      destruct (counts_spec nq an ns ar P Hc1 Hc2 Hc3 Hc4 P_bounds _ _ _ Hi) as (Cq & _); rewrite Cq.
+    - assert (E : (0 <? nq - N.min idx nq) = false) by lia. rewrite E. exists r. split; [reflexivity|].
+      destruct Hi as (I1 & _). replace (N.max hw nq) with hw by lia. replace nq with idx by lia. exact Hs.
+    - assert (E : (0 <? nq - N.min idx nq) = true) by lia. rewrite E.
+      destruct (getN_some qs idx ltac:(lia)) as [it Hg]. destruct (P_question idx it Hg) as (P1 & P2 & P3).
+      unfold run. rewrite (skip_question_is_question_at (r_cur r) it Hw) by (rewrite Hp; exact P3).
+      cbn [with_cur r_tr r_cur pos c_set_pos].
+      destruct (question_step nq an ns ar P Hc1 Hc2 Hc3 Hc4 P_bounds _ _ _ Hi ltac:(lia)) as (tr' & Et & Hi').
+      rewrite <- P2, Et.
+      assert (Hs1 : RState (with_tr (mkReader (c_set_pos (r_cur r) (P (idx + 1))) (r_tr r) (r_done r)) tr') (idx + 1) (idx + 1)).
+      { split; [apply whole_set_pos; exact Hw|]. split; [reflexivity|]. split; [exact Hi'|exact Hd]. }
+      destruct (IH f _ _ _ Hs1 ltac:(lia) Hfull ltac:(lia)) as (r' & E' & Hs'). exists r'. split; [exact E'|].
+      destruct Hi as (I1 & I2 & I3 & _). replace (N.max hw nq) with (N.max (idx + 1) nq) by lia. exact Hs'.
+  Qed.
+
+  (* the implementation-level calls behind record_marker / skip_record_data *)
+  Lemma step_record_impl r idx hw it : RState r idx hw -> nq <= idx -> getN rs (idx - nq) = Some it ->
+    exists r1 mk r2, marker_impl msg r = (r1, Ok mk) /\ skip_record_data_impl mk r1 = (r2, Ok OUnit) /\
+                     RState r2 (idx + 1) (N.max hw (idx + 1)).
+  Proof.
+    intros Hs Hge Hg. destruct (step_record r idx hw it Hs Hge Hg) as (r1 & r2 & E1 & E2 & S2). cbv zeta in E1, E2.
+    destruct Hs as (_ & _ & _ & Hd).
+    unfold rd_marker in E1. rewrite Hd in E1. apply latch_ok in E1. unfold bind2 in E1.
+    destruct (marker_impl msg r) as [r0 x]. destruct x as [m| | | | |]; try discriminate. inversion E1; subst.
+    unfold rd_skip_data in E2. destruct (negb _); [discriminate|]. destruct (r_done r1); [discriminate|].
+    eexists. eexists. eexists. split; [reflexivity|]. split; [exact E2|exact S2].
+  Qed.
+
+  Lemma skip_section_loop_ok s : s < 3 -> forall n fuel r idx hw, RState r idx hw -> nq <= idx ->
+    sec_start (lin nq an ns ar) s <= idx - nq ->
+    idx + N.of_nat n = nq + sec_start (lin nq an ns ar) s + sec_count (lin nq an ns ar) s ->
+    idx + N.of_nat n <= nq + lenN rs -> (n < fuel)%nat ->
+    exists r', skip_section_loop msg fuel s r = (r', Ok tt) /\
+               RState r' (nq + sec_start (lin nq an ns ar) s + sec_count (lin nq an ns ar) s)
+                         (N.max hw (nq + sec_start (lin nq an ns ar) s + sec_count (lin nq an ns ar) s)).
+  Proof.
+    intros Hs3. induction n as [|n IH]; intros fuel r idx hw Hs Hge Hin Hn Hav Hf; (destruct fuel as [|f]; [lia|]); cbn [skip_section_loop];
+      pose proof Hs as (Hw & Hp & Hi & Hd);
+      destruct (counts_spec nq an ns ar P Hc1 Hc2 Hc3 Hc4 P_bounds _ _ _ Hi) as (_ & C0 & C1 & C2 & _);
+      assert (Cs : records_left_in (r_tr r) s = Ok (sec_count (lin nq an ns ar) s - rd nq an ns ar idx s))
+        by (assert (s = 0 \/ s = 1 \/ s = 2) as [-> | [-> | ->]] by lia; assumption);
+      rewrite Cs; unfold rd in *.
+    - assert (E : (0 <? sec_count (lin nq an ns ar) s - N.min (idx - nq - sec_start (lin nq an ns ar) s) (sec_count (lin nq an ns ar) s)) = false) by lia.
+      rewrite E. exists r. split; [reflexivity|]. destruct Hi as (I1 & _).
+      replace (nq + sec_start (lin nq an ns ar) s + sec_count (lin nq an ns ar) s) with idx by lia.
+      replace (N.max hw idx) with hw by lia. exact Hs.
+    - assert (E : (0 <? sec_count (lin nq an ns ar) s - N.min (idx - nq - sec_start (lin nq an ns ar) s) (sec_count (lin nq an ns ar) s)) = true) by lia.
+      rewrite E. destruct (getN_some rs (idx - nq) ltac:(lia)) as [it Hg].
+      destruct (step_record_impl r idx hw it Hs Hge Hg) as (r1 & mk & r2 & E1 & E2 & S2).
+      unfold bind2. rewrite E1, E2.
+      destruct (IH f r2 (idx + 1) (N.max hw (idx + 1)) S2 ltac:(lia) ltac:(lia) ltac:(lia) ltac:(lia) ltac:(lia)) as (r' & E' & Hs').
+      exists r'. split; [exact E'|].
+      replace (N.max hw (nq + sec_start (lin nq an ns ar) s + sec_count (lin nq an ns ar) s))
+        with (N.max (N.max hw (idx + 1)) (nq + sec_start (lin nq an ns ar) s + sec_count (lin nq an ns ar) s)) by lia.
+      exact Hs'.
+  Qed.
+
+  Theorem step_seek_skip r hw s : RState r 0 hw -> s < 3 -> known (lin nq an ns ar) (mkA 0 hw false None) s = false ->
+    lenN qs = nq -> sec_start (lin nq an ns ar) s <= lenN rs ->
+    exists r', rd_seek msg s r = (r', Ok OUnit) /\
+               RState r' (nq + sec_start (lin nq an ns ar) s) (N.max hw (nq + sec_start (lin nq an ns ar) s)).
+  Proof.
+    intros Hs Hs3 Hk Hfull Hav. pose proof Hs as (Hw & Hp & Hi & Hd).
+    destruct (seek_step nq an ns ar P Hc1 Hc2 Hc3 Hc4 P_bounds _ _ _ s Hi Hs3) as [_ Hno]. specialize (Hno Hk).
+    unfold rd_seek. rewrite Hd, Hno, Hp, P_0. unfold seek_not_at_header_end. rewrite HEADER_LENGTH_spec. cbn [N.eqb Pos.eqb negb].
+    assert (Hq0 : total (qd (r_tr r)) = nq) by (destruct Hi as (_ & _ & _ & Q & _); rewrite Q; reflexivity).
+    destruct (skip_questions_loop_ok (N.to_nat nq) (q_fuel r) r 0 hw Hs ltac:(lia) Hfull ltac:(unfold q_fuel; rewrite Hq0; lia)) as (r1 & E1 & S1).
+    assert (Hfuel : forall r0 i h s0, RState r0 i h -> s0 < 3 -> s_fuel r0 s0 = S (N.to_nat (sec_count (lin nq an ns ar) s0))).
+    { intros r0 i h s0 (_ & _ & (_ & _ & _ & _ & Sc & _) & _) H3. unfold s_fuel. rewrite Sc.
+      assert (s0 = 0 \/ s0 = 1 \/ s0 = 2) as [-> | [-> | ->]] by lia; reflexivity. }
+    unfold seek_impl, skip_questions_impl, bind2. rewrite E1.
+    assert (Hcases : s = 0 \/ s = 1 \/ s = 2) by lia. destruct Hcases as [-> | [-> | ->]]; cbn [sec_start lin l_an l_ns] in *.
+    - unfold unit_obs, latch. cbn [fst snd bind]. exists r1. split; [reflexivity|]. replace (nq + 0) with nq by lia. exact S1.
+    - destruct (skip_section_loop_ok 0 ltac:(lia) (N.to_nat an) (s_fuel r1 0) r1 nq (N.max hw nq) S1) as (r2 & E2 & S2);
+        try (cbn [sec_start sec_count lin l_an l_ns l_ar]; lia); [rewrite (Hfuel _ _ _ 0 S1) by lia; cbn [sec_count lin l_an]; lia|].
+      rewrite E2. unfold unit_obs, latch. cbn [fst snd bind]. exists r2. split; [reflexivity|].
+      cbn [sec_start sec_count lin l_an l_ns l_ar] in S2. replace (nq + 0 + an) with (nq + an) in S2 by lia.
+      replace (N.max hw (nq + an)) with (N.max (N.max hw nq) (nq + an)) by lia. exact S2.
+    - destruct (skip_section_loop_ok 0 ltac:(lia) (N.to_nat an) (s_fuel r1 0) r1 nq (N.max hw nq) S1) as (r2 & E2 & S2);
+        try (cbn [sec_start sec_count lin l_an l_ns l_ar]; lia); [rewrite (Hfuel _ _ _ 0 S1) by lia; cbn [sec_count lin l_an]; lia|].
+      rewrite E2. cbn [sec_start sec_count lin l_an l_ns l_ar] in S2. replace (nq + 0 + an) with (nq + an) in S2 by lia.
+      destruct (skip_section_loop_ok 1 ltac:(lia) (N.to_nat ns) (s_fuel r2 1) r2 (nq + an) _ S2) as (r3 & E3 & S3);
+        try (cbn [sec_start sec_count lin l_an l_ns l_ar]; lia); [rewrite (Hfuel _ _ _ 1 S2) by lia; cbn [sec_count lin l_ns]; lia|].
+      rewrite E3. unfold unit_obs, latch. cbn [fst snd bind]. exists r3. split; [reflexivity|].
+      cbn [sec_start sec_count lin l_an l_ns l_ar] in S3.
+      replace (nq + (an + ns)) with (nq + an + ns) by lia.
+      replace (N.max hw (nq + an + ns)) with (N.max (N.max (N.max hw nq) (nq + an)) (nq + an + ns)) by lia. exact S3.
+  Qed.
+
+  (* seek to a section whose offset is not known from anywhere else is refused, and nothing changes *)
+  Theorem step_seek_refused r idx hw s : RState r idx hw -> s < 3 -> known (lin nq an ns ar) (mkA idx hw false None) s = false ->
+    0 < idx -> idx <= lenN qs + lenN rs -> rd_seek msg s r = (r, Err (RecordsSectionOffsetUnknown s)).
+  Proof.
+    intros (Hw & Hp & Hi & Hd) Hs3 Hk Hpos Hav.
+    destruct (seek_step nq an ns ar P Hc1 Hc2 Hc3 Hc4 P_bounds _ _ _ s Hi Hs3) as [_ Hno]. specialize (Hno Hk).
+    unfold rd_seek. rewrite Hd, Hno.
+    (* the reader stands behind item idx-1, which starts at or after offset 12 *)
+    assert (H12 : 12 < P idx).
+    { replace idx with ((idx - 1) + 1) by lia.
+      destruct (N.lt_ge_cases (idx - 1) (lenN qs)) as [Hlt|Hge].
+      - destruct (getN_some qs (idx - 1) Hlt) as [it Hg]. destruct (P_question _ _ Hg) as (_ & P2 & _). rewrite P2.
+        destruct (chain_get _ _ Hfq _ _ _ Hq) as (_ & _ & _ & G). destruct (G _ _ Hg) as (A1 & _ & A3 & _).
+        destruct (question_at_start _ _ A1) as (_ & B2 & _). lia.
+      - destruct (getN_some rs (idx - 1 - lenN qs) ltac:(lia)) as [it Hg].
+        assert (Hfull : lenN qs = nq).
+        { destruct (N.lt_ge_cases (lenN qs) nq) as [Hl|Hg']; [|lia]. rewrite (Hshort Hl), getN_nil in Hg. discriminate. }
+        destruct (P_record _ _ Hg) as (_ & P2 & _). replace (nq + (idx - 1 - lenN qs) + 1) with (idx - 1 + 1) in P2 by lia. rewrite P2.
+        destruct (chain_get _ _ Hfr _ _ _ Hr) as (_ & _ & _ & G). destruct (G _ _ Hg) as (A1 & A2 & A3 & _).
+        destruct (record_at_start _ _ A1 A2) as (_ & B2 & _).
+        destruct (chain_get _ _ Hfq _ _ _ Hq) as (Q1 & _). lia. }
+    rewrite Hp. unfold seek_not_at_header_end. rewrite HEADER_LENGTH_spec.
+    assert (E : negb (P idx =? 12) = true) by lia. rewrite E. reflexivity.
+  Qed.
+
   (* ---------------------------------------------------------------- the first item that does not parse *)
   (* past the parsed items the reader stands where the pass stopped *)
   Lemma P_end k : lenN qs + lenN rs <= k -> P k = e2.
@@ -577,6 +719,18 @@ Section W.
       exists r1 r2 e, rd_marker msg r = (r1, Ok (OMarker mk)) /\ rd_skip_data mk r1 = (r2, Err e) /\ r_done r2 = true
     end.
   Proof. intros. use fail_record. Qed.
+
+  Theorem seek_skip_any : forall r hw s, RState msg nq an ns ar qs rs e2 r 0 hw -> s < 3 ->
+    known (lin nq an ns ar) (mkA 0 hw false None) s = false ->
+    lenN qs = nq -> sec_start (lin nq an ns ar) s <= lenN rs ->
+    exists r', rd_seek msg s r = (r', Ok OUnit) /\
+               RState msg nq an ns ar qs rs e2 r' (nq + sec_start (lin nq an ns ar) s) (N.max hw (nq + sec_start (lin nq an ns ar) s)).
+  Proof. intros. use step_seek_skip. Qed.
+
+  Theorem seek_refused_any : forall r idx hw s, RState msg nq an ns ar qs rs e2 r idx hw -> s < 3 ->
+    known (lin nq an ns ar) (mkA idx hw false None) s = false ->
+    0 < idx -> idx <= lenN qs + lenN rs -> rd_seek msg s r = (r, Err (RecordsSectionOffsetUnknown s)).
+  Proof. intros. use step_seek_refused. Qed.
 End W.
 
 Theorem linear_parsed msg l : linear_of msg = Some l ->
